@@ -26,7 +26,7 @@ use std::path::{Path, PathBuf};
 use std::sync::atomic::{AtomicU64, AtomicUsize, Ordering};
 
 use mcx::report::{machinery, Ctx, Violation};
-use mcx::sweep::{self, ItemOut, Stats};
+use mcx::sweep::{self, ItemOut};
 use nonempty::NonEmpty;
 use radicle::crypto::test::signer::MockSigner;
 use radicle::git::canonical::{Canonical, QuorumError};
@@ -398,12 +398,12 @@ enum Answer {
 }
 
 impl Answer {
-    fn label(&self) -> &'static str {
+    fn label(&self) -> String {
         match self {
-            Answer::Head(..) => "ok",
-            Answer::NoCandidates => "no-candidates",
-            Answer::Diverging => "diverging",
-            Answer::Git(_) => "git-error",
+            Answer::Head(..) => "ok".into(),
+            Answer::NoCandidates => "no-candidates".into(),
+            Answer::Diverging => "diverging".into(),
+            Answer::Git(e) => format!("git-error({e})"),
         }
     }
 }
@@ -425,6 +425,8 @@ struct Item<'a> {
     threshold: usize,
     fam: &'a Fam,
     seed: u64,
+    /// position in the block (deterministic tie-break between equally small witnesses)
+    index: u64,
 }
 
 impl Item<'_> {
@@ -442,13 +444,14 @@ impl Item<'_> {
             "path": path,
             "salt": self.fam.salt,
             "seed": self.seed,
-            "oids": bits(closure).iter().map(|c| (format!("c{c}"), self.fam.oids[*c].to_string())).collect::<serde_json::Map<_, _>>(),
+            "oids": bits(closure).iter().map(|c| (format!("c{c}"), Value::String(self.fam.oids[*c].to_string()))).collect::<serde_json::Map<String, Value>>(),
         })
     }
     fn cost(&self) -> u64 {
         let used = Block::tip_mask(&self.tips);
         let closure = bits(used).iter().fold(0u32, |m, c| m | self.block.anc[*c]);
-        100 * self.tips.iter().flatten().count() as u64 + 10 * closure.count_ones() as u64 + self.block.nd as u64 * 3 + self.threshold as u64
+        let size = 100 * self.tips.iter().flatten().count() as u64 + 10 * closure.count_ones() as u64 + self.block.nd as u64 * 3 + self.threshold as u64;
+        (size << 40) | (mcx::fnv64(self.block.shape.name.as_bytes()) & 0xff) << 32 | (self.index & 0xffff_ffff)
     }
 }
 
@@ -547,7 +550,7 @@ fn decode<'a>(env: &'a Env, block: &'a Block, li: u64) -> Item<'a> {
     // sanity: the family really has this order
     debug_assert!(order.windows(2).all(|w| fam.oids[w[0]] < fam.oids[w[1]]));
     let _ = env;
-    Item { block, tips, order, threshold, fam, seed: 0 }
+    Item { block, tips, order, threshold, fam, seed: 0, index: li }
 }
 
 fn run_paths(env: &Env, it: &Item) -> (Answer, Answer, Vec<Violation>) {
@@ -569,7 +572,7 @@ fn run_paths(env: &Env, it: &Item) -> (Answer, Answer, Vec<Violation>) {
         env.quorum_calls.fetch_add(2, Ordering::Relaxed);
         let a1 = answer(canonical.quorum(w.repo.raw()), it.fam);
         // Path 2: the same votes presented through `modify_vote` on an empty tip set.
-        let mut canonical = Canonical::reference(&w.repo, &absent, &delegates, it.threshold).unwrap_or_else(|e| machinery(&format!("C03: Canonical::reference failed: {e}")));
+        let mut canonical = Canonical::reference(&w.repo, &absent, &NonEmpty::new(env.dids[0]), it.threshold).unwrap_or_else(|e| machinery(&format!("C03: Canonical::reference failed: {e}")));
         if !canonical.is_empty() {
             machinery("C03: refs/heads/absent exists");
         }
@@ -629,7 +632,7 @@ fn eval_e2e(env: &Env, block: &Block, li: u64, seed: u64) -> ItemOut {
         let (v, model) = judge(&it, &a1, "canonical_head");
         vs.extend(v);
         // set_head must publish exactly a head that satisfies the statement.
-        let mut label = a1.label().to_string();
+        let mut label = a1.label();
         match repo.set_head() {
             Ok(sh) => {
                 let published = repo.raw().refname_to_id("HEAD").ok();
